@@ -3,9 +3,9 @@ Run after confirming the checks on a tree: the table is the naming the rule modu
 import ast, json, os, sys
 VERIF = os.path.dirname(os.path.dirname(os.path.abspath(__file__)))
 sys.path.insert(0, VERIF)
-from sa import alpha, names
+from sa import alpha, names, helpers
 root = sys.argv[1] if len(sys.argv) > 1 else "/repo/discopy"
-table, cmps, loops, exits, meths = {}, {}, {}, {}, {}
+table, cmps, loops, exits, meths, ifs, nparams, negs, rebinds = {}, {}, {}, {}, {}, {}, {}, {}, {}
 for dp, dn, fns in os.walk(root):
     dn[:] = [d for d in dn if d != "__pycache__"]
     for f in sorted(fns):
@@ -22,6 +22,10 @@ for dp, dn, fns in os.walk(root):
                 cmps[name] = c
             exits[name] = names.exits_table_of(name, ast.parse(open(p).read()))
             meths[name] = names.methods_table_of(name, ast.parse(open(p).read()))
+            ifs[name] = helpers.ifs_table_of(ast.parse(open(p).read()))
+            negs[name] = helpers.neg_guards_of(ast.parse(open(p).read()))
+            rebinds[name] = helpers.param_rebinds_of(name, ast.parse(open(p).read()))
+            nparams[name] = helpers.nested_params_of(name, ast.parse(open(p).read()))
             lp = alpha.loop_table_of(ast.parse(open(p).read()))
             if lp:
                 loops[name] = lp
@@ -30,4 +34,5 @@ json.dump(cmps, open(alpha.CMP_TABLE, "w"), indent=0, sort_keys=True)
 json.dump(loops, open(alpha.LOOP_TABLE, "w"), indent=0, sort_keys=True)
 json.dump(exits, open(names.EXITS_TABLE, "w"), indent=0, sort_keys=True)
 json.dump(meths, open(names.METHODS_TABLE, "w"), indent=0, sort_keys=True)
+json.dump({"ifs": ifs, "nested_params": nparams, "neg_guards": negs, "param_rebinds": rebinds}, open(helpers.IFS_TABLE, "w"), indent=0, sort_keys=True)
 print("%d modules, %d functions with locals" % (len(table), sum(len(v) for v in table.values())))
